@@ -284,7 +284,7 @@ func (nr *nativeRunner) run(pkgRel string, cases []nativeCase) ([]nativeOutcome,
 	os.WriteFile(in, b, 0644)
 	defer os.Remove(in)
 	defer os.Remove(outp)
-	cmd := exec.Command(bin, "-test.run", "^TestVerifReplay$", "-test.timeout", "300s")
+	cmd := exec.Command(bin, "-test.run", "^TestVerifReplay$", "-test.timeout", "900s")
 	cmd.Dir = filepath.Join(nr.repo, pkgRel)
 	if _, serr := os.Stat(cmd.Dir); serr != nil {
 		cmd.Dir = nr.repo // overlay-only package directory
@@ -318,7 +318,7 @@ func (nr *nativeRunner) runRace(pkgRel string, c nativeCase) (nativeOutcome, err
 	os.WriteFile(in, b, 0644)
 	defer os.Remove(in)
 	defer os.Remove(outp)
-	cmd := exec.Command(bin, "-test.run", "^TestVerifReplay$", "-test.timeout", "300s")
+	cmd := exec.Command(bin, "-test.run", "^TestVerifReplay$", "-test.timeout", "900s")
 	cmd.Dir = filepath.Join(nr.repo, pkgRel)
 	if _, serr := os.Stat(cmd.Dir); serr != nil {
 		cmd.Dir = nr.repo
@@ -517,11 +517,12 @@ func runCheck(args []string) int {
 		}
 		perLabel := map[string]int{}
 		for i, ce := range hr.CEs {
-			if rep > 100 {
-				// many repetitions per case: a few counterexamples per label are enough
-				// (confirmation is per label)
+			if rep > 100 || strings.HasPrefix(ce.Message, "did not terminate") {
+				// many repetitions per case, or cases that natively run into the
+				// watchdog (seconds each): a few counterexamples per label are
+				// enough (confirmation is per label)
 				perLabel[ce.Label]++
-				if perLabel[ce.Label] > 3 {
+				if perLabel[ce.Label] > 2 {
 					continue
 				}
 			}
